@@ -11,7 +11,7 @@
    contain renames but not yet earlier moves / copies; the operation under consideration itself may be any rename / move. *)
 From Coq Require Import Lia.
 From AV Require Import Base.Bytes Base.Outcome Hash.HashModel Tree.Heap Tree.Ops Tree.Script Tree.Inv Tree.InvProofs
-  Tree.Index Tree.Refs Tree.IndexProofsW Tree.IndexProofsBase Tree.IndexProofsBridge
+  Tree.Index Tree.Refs Tree.IndexProofsW Tree.IndexProofsBase Tree.IndexProofsBridge Tree.IndexProofsClosed
   Tree.Follow Tree.FollowProofsRename Tree.FollowProofsMove Tree.FollowProofsContainer Tree.FollowProofsCross.
 Open Scope string_scope.
 Open Scope list_scope.
@@ -117,6 +117,49 @@ Proof.
   split.
   - intros h nn ->. eapply C06_rename_op; eauto.
   - intros h mv Ho HK. eapply C06_move_ops; eauto.
+Qed.
+
+(* TOTAL case split: every successful move satisfies the clauses of its case, or is in the one excluded class
+   (same model, non-identifiable container, a moved element's new path already exists: finding
+   C04-move-container-duplicates-paths).  With a colliding name in the IDENTIFIABLE case make_unique_item_name renames
+   and the clauses hold (case 1 has no side condition); across models nothing is excluded either. *)
+Theorem C06_move_total o w w' v h mv :
+  TablesOK T check_fn -> Inv06 T check_fn w ->
+  run o w = Val (OK v, w') ->
+  (o = OpMove h mv \/ exists pos, o = OpMoveAt h mv pos) ->
+  move_clauses w w' h mv \/
+  (exists m, model_of h w = Val (OK m, w) /\ model_of mv w = Val (OK m, w) /\
+             identifiable T w mv = false /\ collision06 T w h mv = true).
+Proof.
+  intros HTK HI H Ho. destruct (K06_collision w o) eqn:HK; [|left; eapply C06_move_ops; eauto].
+  right. destruct Ho as [->|(pos & ->)]; cbn [K06_collision] in HK;
+    apply andb_true_iff in HK as (Hid & HK); apply Bool.negb_true_iff in Hid;
+    destruct (model_of h w) as [[[m1|?] ?]| |] eqn:E1; try discriminate HK;
+    destruct (model_of mv w) as [[[m2|?] ?]| |] eqn:E2; try discriminate HK;
+    apply andb_true_iff in HK as (Hm & Hc); apply N.eqb_eq in Hm; subst m2;
+    assert (Hro : ro (model_of h)) by auto with ro; pose proof (Hro _ _ _ E1) as ->;
+    assert (Hro2 : ro (model_of mv)) by auto with ro; pose proof (Hro2 _ _ _ E2) as ->;
+    exists m1; auto.
+Qed.
+
+(* histories with agent-c04's refined list of pending constructors (clean45m: earlier same-model moves of
+   identifiable elements, renames, remove_from_file are allowed in the prefix) *)
+Theorem C06_history_m l w o v w' :
+  clean45m T tab_el tab_en check_fn LATEST root_attrs l empty_world = true ->
+  run_ops T tab_el tab_en check_fn LATEST root_attrs l empty_world = Val w ->
+  run o w = Val (OK v, w') ->
+  (forall h nn, o = OpSetItemName h nn -> rename_clauses w w' h) /\
+  (forall h mv, (o = OpMove h mv \/ exists pos, o = OpMoveAt h mv pos) ->
+     move_clauses w w' h mv \/
+     (exists m, model_of h w = Val (OK m, w) /\ model_of mv w = Val (OK m, w) /\
+                identifiable T w mv = false /\ collision06 T w h mv = true)).
+Proof.
+  intros Hc Hr H.
+  assert (HI : Inv06 T check_fn w).
+  { exact (C04_C05_history T tab_el tab_en check_fn LATEST root_attrs TK l w Hc Hr). }
+  split.
+  - intros h nn ->. eapply C06_rename_op; eauto.
+  - intros h mv Ho. eapply C06_move_total; eauto.
 Qed.
 
 End All.
